@@ -2,12 +2,12 @@
 """blind_eval.py <out.json> <PID-x>...: quick check of a property against a scratch worktree with an INCOMING (not yet confirmed)
 seed applied; used to record what the machinery said about a fresh seed before anything was changed in response."""
 import json, os, re, subprocess, sys
-VERIF = '/verif'; WT = '/tmp/blindeval'
+VERIF = '/verif'; WT = os.environ.get('BLIND_WT', '/tmp/blindeval')
 out = sys.argv[1]; ids = sys.argv[2:]
 res = json.load(open(out)) if os.path.exists(out) else {}
 subprocess.run('git -C /repo worktree remove --force %s' % WT, shell=True, stdout=subprocess.DEVNULL, stderr=subprocess.DEVNULL)
 subprocess.run('git -C /repo worktree add -q %s HEAD' % WT, shell=True, check=True)
-env = dict(os.environ, VERIF_REPO=WT, VERIF_EVIDENCE_DIR='/tmp/blindeval_evidence')
+env = dict(os.environ, VERIF_REPO=WT, VERIF_EVIDENCE_DIR=WT + '_evidence')
 head = subprocess.run('git -C /verif rev-parse --short HEAD', shell=True, stdout=subprocess.PIPE, text=True).stdout.strip()
 try:
     for sid in ids:
@@ -25,4 +25,4 @@ try:
         json.dump(res, open(out, 'w'), indent=1)
 finally:
     subprocess.run('git -C /repo worktree remove --force %s' % WT, shell=True)
-    subprocess.run('rm -rf /tmp/blindeval_evidence', shell=True)
+    subprocess.run('rm -rf ' + WT + '_evidence', shell=True)
